@@ -395,6 +395,7 @@ type hist struct {
 	prevKeys []concKey
 	soonAt   time.Time // instant the "soon" keys expire (zero: no such key)
 	sentinel string
+	stale    bool // an entry of the replaced key configuration is still in the key table after the reload
 	sess     []string
 	gen      int
 	infra    string
@@ -424,7 +425,7 @@ func idle() bool {
 // has come to rest.
 func (h *hist) settle(all []concKey) {
 	deadline := time.Now().Add(5 * time.Second)
-	for !api.VerifHasAPIKey(h.sentinel) {
+	for h.sentinel != "" && !api.VerifHasAPIKey(h.sentinel) {
 		if time.Now().After(deadline) {
 			h.infra = "key table not reloaded within 5 s"
 			return
@@ -570,8 +571,27 @@ func (h *hist) setKeys(ents []keyEnt, storm *bool) error {
 		h.keys = append(h.keys, ck)
 		vals = append(vals, entry)
 	}
+	oldSentinel := h.sentinel
+	h.stale = false
+	if len(ents) == 0 && storm == nil && oldSentinel != "" && h.gen%2 == 0 {
+		// a really empty key list (no sentinel entry either): every key of the replaced configuration must go
+		h.sentinel = ""
+		if err := setOption(api.CfgAPIKeys, []string{}); err != nil {
+			return err
+		}
+		for deadline := time.Now().Add(2 * time.Second); api.VerifHasAPIKey(oldSentinel) && time.Now().Before(deadline); {
+			time.Sleep(200 * time.Microsecond)
+		}
+		h.stale = api.VerifHasAPIKey(oldSentinel)
+		return nil
+	}
 	h.sentinel = fmt.Sprintf("sentinel-%d-%s", h.gen, randStr(h.rnd, 12, alnum))
 	vals = append(vals, h.sentinel+"?read=user", "?read=admin&write=admin", "%zz?read=admin")
+	defer func() {
+		if oldSentinel != "" {
+			h.stale = api.VerifHasAPIKey(oldSentinel)
+		}
+	}()
 	if storm == nil {
 		if err := setOption(api.CfgAPIKeys, vals); err != nil {
 			return err
@@ -619,6 +639,9 @@ const stormRounds = 24
 // microtask of the api package that was scheduled for an older configuration and ran late would have
 // written the older entries back.
 func (h *hist) intact() bool {
+	if h.sentinel == "" {
+		return true // the empty list was configured: there is nothing a late clean-up could have replaced
+	}
 	want := h.sentinel + "?read=user"
 	for _, e := range config.GetAsStringArray(api.CfgAPIKeys, nil)() {
 		if e == want {
@@ -967,7 +990,7 @@ func run(tr *vio.Trace, n int, s *script) error {
 			for i, k := range h.keys {
 				conc[i] = k.entry
 			}
-			tr.EmitRaw(map[string]any{"e": "keys", "h": n, "keys": st.Keys, "entries": conc, "err": ""})
+			tr.EmitRaw(map[string]any{"e": "keys", "h": n, "keys": st.Keys, "entries": conc, "err": "", "stale": h.stale})
 		case "storm":
 			if st.Keys == nil {
 				st.Keys = []keyEnt{}
@@ -979,7 +1002,7 @@ func run(tr *vio.Trace, n int, s *script) error {
 				}
 				return err
 			}
-			tr.EmitRaw(map[string]any{"e": "storm", "h": n, "keys": st.Keys, "on": st.On, "err": ""})
+			tr.EmitRaw(map[string]any{"e": "storm", "h": n, "keys": st.Keys, "on": st.On, "err": "", "stale": h.stale})
 		case "dev":
 			if err := h.setDev(st.On); err != nil {
 				if errors.Is(err, errConfigHang) {
